@@ -80,6 +80,7 @@ type VC struct {
 	exitIdx   []int
 	exitPos   []string
 	inlineBudget int
+	watchHit map[string]bool
 	heapSorts map[string]Sort
 	skipAssume bool
 	specCalls int
